@@ -35,6 +35,8 @@ type vconn struct {
 	hook         *vbroker // broker model processing every write attempt
 	nInjected    int
 	signalLocked bool // a signal is due once the atomic section is left
+	closedAt     int64
+	stamp        bool
 }
 
 func newVconn(name string) *vconn {
@@ -121,6 +123,9 @@ func (c *vconn) Close() error {
 	verifLock()
 	c.nClose++
 	already := c.closed
+	if !already {
+		c.closedAt = verifNow()
+	}
 	c.closed = true
 	verifUnlock()
 	c.signal()
